@@ -149,4 +149,17 @@ theorem unaryExist_eq (op : String) (f : Bytes) (x : Operand) (d : Doc) :
     UnaryCriteria_exist ⟨op, f, x⟩ d = d.has f := by
   simp [UnaryCriteria_exist, Id.run, id_pure]
 
+variable (likeFn : LikeFn) (fnFam : FnFam)
+
+/-- `BinaryCriteria.Satisfy` / `NotCriteria.Satisfy` as the current source writes them, with each sub-criterion
+    represented by its answer on the document: the model's `sat` on `.and`, `.or`, `.not` -/
+theorem binarySatisfy_eq (d : Doc) (a b : Crit) :
+    BinaryCriteria_Satisfy ⟨"LogicalAnd", sat likeFn fnFam d a, sat likeFn fnFam d b⟩ = sat likeFn fnFam d (.and a b) ∧
+    BinaryCriteria_Satisfy ⟨"LogicalOr", sat likeFn fnFam d a, sat likeFn fnFam d b⟩ = sat likeFn fnFam d (.or a b) := by
+  constructor <;> simp [BinaryCriteria_Satisfy, sat, Id.run, id_pure]
+
+theorem notSatisfy_eq (d : Doc) (a : Crit) :
+    NotCriteria_Satisfy ⟨sat likeFn fnFam d a⟩ = sat likeFn fnFam d (.not a) := by
+  simp [NotCriteria_Satisfy, sat, Id.run, id_pure]
+
 end CV.Translated
